@@ -179,7 +179,7 @@ PROPS = {
         runs=[dict(harness="codec", name="rt_traces", args=lambda tier, seed, casedir, coq: ["rt_traces", "--n", str(q(tier, 70, 3000)), "--seed", str(seed)], timeout=3000, coq_timeout=3000)],
         rule="stream histories of 1-5 trace batches (1-7 spans per scope, 0-2 resources x 0-2 scopes, events, links, every AnyValue type incl. nested lists/maps, empty keys and unset values, boundary numerics, "
              "near-identical resources/scopes differing only in value type or embedded delimiters, repeated and fresh strings; a quarter of the histories low-entropy: every name/key/value/timestamp from a pool of one or two, "
-             "so sorted groups span tables and repeat across batch boundaries) through the real producer and consumer, the consumer lagging 0-2 batches behind the producer (decoded in stream order); per batch (a) the equivalence predicate of Otlp/Equiv.v "
+             "so sorted groups span tables and repeat across batch boundaries; 30% of the histories under producer options — 8-bit dictionary limit with reuse (reset) or without (overflow), no dictionary, no zstd — with sliding-window name batches) through the real producer and consumer, the consumer lagging 0-2 batches behind the producer (decoded in stream order), plus one long stream per run (1200 small batches under a 512 KiB consumer memory limit, Go-side comparison); per batch (a) the equivalence predicate of Otlp/Equiv.v "
              "evaluated in Coq on real input vs real output, (a') the real ResourceID/ScopeID string of every generated resource and scope compared byte for byte with Otlp/Ids.v (atom renderers tabulated per case), (b) the real attribute tables and id columns decoded by the Coq model and compared with what the real consumer attached to every row, and re-encoded to the real parent-id column, (c) the real span-event and span-link tables (ids, name / trace-id keyed parent ids, their 32-bit attribute tables) decoded by the model: per span the children and their attributes must be those the real consumer attached",
         trusted_base=["modelled, not verified: arrow-go (builders, IPC transport, dictionaries), zstd, the CBOR byte codec (nested values are read back through common.Deserialize)",
                       "the scalar columns of the main tables are not modelled cell by cell (tie: equivalence predicate on real I/O)",
@@ -242,7 +242,8 @@ PROPS = {
              "(must be within the protobuf-registration whitelist), and every package-level variable whose type can reach memory (must be an error value, an immutable library prototype or a read-only lookup table); "
              "indep: 2-8 producer/consumer pairs with different options and histories (every other case: 2-4 streams of one signal sharing a vocabulary of one or two names/keys/values in large tables) "
              "run (a) concurrently in free goroutines and (b) three times under a cooperative scheduler — one goroutine at a time, hand-over decided by the PRNG at every allocator call of the producer, "
-             "i.e. inside the encoders' loops — each stream's decoded output compared with the output of the same stream run alone",
+             "i.e. inside the encoders' loops — each stream's decoded output and the memory its consumer reports after every batch compared with the same stream run alone; all consumers of a case are built from one set of option values; "
+             "genssa also lists option constructors that capture (or pass to another option constructor) reference-like state they created themselves (must be none)",
         trusted_base=["data-race freedom is outside the model (Go memory model); the go/ssa extractor", "instances share no state by construction (each NewProducer/NewConsumer builds its own builders, allocators, maps)"],
         assumptions=["-race runs are supporting evidence in the thorough tier only"],
     ),
